@@ -230,6 +230,32 @@ impl<'tcx> Cx<'tcx> {
         if let Const::Unevaluated(uv, _) = c {
             if let Some(p) = uv.promoted {
                 parts.push(format!("\"promoted\":{}", p.as_usize()));
+                // constants mentioned by the promoted body (e.g. `&STREAM_MAX_SIZE`)
+                let bodies = tcx.promoted_mir(uv.def);
+                if let Some(pb) = bodies.get(p) {
+                    let mut inner = Vec::new();
+                    for bb in pb.basic_blocks.iter() {
+                        for st in &bb.statements {
+                            if let StatementKind::Assign(b) = &st.kind {
+                                let (_, rv) = &**b;
+                                let ops: Vec<&Operand<'tcx>> = match rv {
+                                    Rvalue::Use(o, ..) => vec![o],
+                                    Rvalue::Cast(_, o, _) => vec![o],
+                                    Rvalue::Aggregate(_, os) => os.iter().collect(),
+                                    _ => vec![],
+                                };
+                                for o in ops {
+                                    if let Operand::Constant(c) = o {
+                                        if !matches!(c.const_, Const::Unevaluated(u, _) if u.promoted.is_some()) {
+                                            inner.push(self.konst(uv.def, &c.const_));
+                                        }
+                                    }
+                                }
+                            }
+                        }
+                    }
+                    parts.push(format!("\"pconsts\":{}", jlist(&inner)));
+                }
             } else {
                 parts.push(format!("\"def\":{}", js(&self.path(uv.def))));
             }
